@@ -20,12 +20,13 @@
    zero padding, -2 = beyond the end of the shard file), so "the read returns
    the right bytes" is "the indices addressed are offset, offset+1, ...".
 
-   Variants: Loc = "tree" is the locator as the tree computes it now (after the
-   commit `fix: ec LocateData ...`), Loc = "orig" is the locator of the pinned
-   commit (suspect S9); Dec = "tree" is the decoder's row loop as written
-   (large rows while remaining >= D*L), Dec = "strict" the loop that mirrors the
-   encoder (>).  The invariants state exactly for which dat sizes each variant
-   is right. *)
+   Variants: "tree" is the arithmetic of the tree as it is now, "orig" that of the pinned
+   commit, before the two repairs made for this property:
+     locator  - orig: row count datSize/(D*L) resp. (datSize+D*S)/(D*L) (suspect S9);
+                tree: (datSize-1)/(D*L) in both places (commit `fix: ec LocateData ...`);
+     decoder  - orig: large rows while remaining >= D*L; tree: > D*L, as the encoder
+                (commit `fix: ec WriteDatFile ...`).
+   The invariants state exactly for which dat sizes each variant is right. *)
 EXTENDS Integers, Sequences, FiniteSets, TLC, Json
 
 CONSTANTS DataShards,   \* 10 in the code (DataShardsCount)
@@ -37,8 +38,9 @@ VARIABLES L, S,         \* large and small block size
           n,            \* size of the data file
           ka, kb,       \* content key: Dat(i) below
           sh, dh,       \* hashes of the 14 shards after encoding (<<>> before) / of the data file
+          ex,           \* the mounted EC index: needle id -> <<offset / 8, size>>  (<<>>: not mounted)
           lc            \* model checking only: state of the locator's loop (NoLoc: no read under way)
-vars == <<L, S, n, ka, kb, sh, dh, lc>>
+vars == <<L, S, n, ka, kb, sh, dh, ex, lc>>
 
 D == DataShards
 RowL == D * L
@@ -170,15 +172,15 @@ OrigLocateInsideWindow ==
 
 (* ------------------------------------------------------------------ decoder *)
 (* WriteDatFile(datFileSize): copies sequentially from each data shard file; rows of
-   D large blocks while remaining >= D*L ("tree") or > D*L ("strict"), then small
-   rows, the last blocks cut to what remains.  cur = read position of the shard files. *)
+   D large blocks while remaining > D*L ("tree") or >= D*L ("orig"), then small rows, the
+   last blocks cut to what remains.  cur = read position of the shard files. *)
 RECURSIVE DecLarge(_, _, _), DecSmall(_, _)
 DecSmall(rem, cur) ==
   IF rem <= 0 THEN <<>>
   ELSE [s \in 1..D |-> [shard |-> s - 1, off |-> cur, len |-> Min(Max(rem - (s - 1) * S, 0), S)]]
        \o DecSmall(rem - RowS, cur + S)
 DecLarge(v, rem, cur) ==
-  IF (IF v = "tree" THEN rem >= RowL ELSE rem > RowL)
+  IF (IF v = "orig" THEN rem >= RowL ELSE rem > RowL)
   THEN [s \in 1..D |-> [shard |-> s - 1, off |-> cur, len |-> L]] \o DecLarge(v, rem - RowL, cur + L)
   ELSE DecSmall(rem, cur)
 RECURSIVE FlattenSegs(_, _)
@@ -187,20 +189,21 @@ FlattenSegs(segs, k) ==
   ELSE [j \in 1..segs[k].len |-> ShardIdx(segs[k].shard, segs[k].off + j - 1)] \o FlattenSegs(segs, k + 1)
 DecodeIdx(v, size) == FlattenSegs(DecLarge(v, size, 0), 1)
 
+(* the dat sizes for which the original decoder is wrong *)
 ExactMultiple == n > 0 /\ n % RowL = 0
-DecodeStrictExact == lc.v = "none" => DecodeIdx("strict", n) = Range(0, n)
-DecodeTreeExact == lc.v = "none" => (DecodeIdx("tree", n) = Range(0, n) <=> ~ExactMultiple)
+DecodeExact == lc.v = "none" => DecodeIdx("tree", n) = Range(0, n)
+OrigDecodeExactIffNotMultiple == lc.v = "none" => (DecodeIdx("orig", n) = Range(0, n) <=> ~ExactMultiple)
 
 (* --------------------------------------------------- model checking / generator *)
 MaxN == MaxRows * RowL + S + 1
 MCInit == /\ \E b \in Blocks : L = b[1] /\ S = b[2]
           /\ n \in 0..MaxN
-          /\ ka = 1 /\ kb = 0 /\ sh = <<>> /\ dh = "" /\ lc = NoLoc
+          /\ ka = 1 /\ kb = 0 /\ sh = <<>> /\ dh = "" /\ ex = <<>> /\ lc = NoLoc
 LocStart == /\ lc.v = "none"
             /\ \E o \in 0..(n - 1) : \E m \in {<<"tree", DerivedDatSize>>, <<"tree", n>>, <<"orig", DerivedDatSize>>} :
                   lc' = LocateOffset(m[1], m[2], o)
 LocStep == lc.v # "none" /\ lc.at + Remaining(lc) < n /\ lc' = NextBlock(lc)
-MCNext == (LocStart \/ LocStep) /\ UNCHANGED <<L, S, n, ka, kb, sh, dh>>
+MCNext == (LocStart \/ LocStep) /\ UNCHANGED <<L, S, n, ka, kb, sh, dh, ex>>
 MCSpec == MCInit /\ [][MCNext]_vars
 
 GenSpec == MCInit /\ [][FALSE]_vars
@@ -228,12 +231,12 @@ Canon(runs, k, acc) ==
 SameBytes(r1, r2) == Canon(r1, 1, <<>>) = Canon(r2, 1, <<>>)
 DatRuns(off, size) == <<<<Dat(off), size>>>>     \* Dat(off .. off+size-1)
 
-Init == L = 0 /\ S = 0 /\ n = 0 /\ ka = 1 /\ kb = 0 /\ sh = <<>> /\ dh = "" /\ lc = NoLoc
+Init == L = 0 /\ S = 0 /\ n = 0 /\ ka = 1 /\ kb = 0 /\ sh = <<>> /\ dh = "" /\ ex = <<>> /\ lc = NoLoc
 
 (* encoding succeeds; remember what the shards and the data file look like *)
 Encode(err, hashes, dathash) ==
   /\ err = "" /\ Len(hashes) = 14
-  /\ sh' = hashes /\ dh' = dathash /\ UNCHANGED <<L, S, n, ka, kb, lc>>
+  /\ sh' = hashes /\ dh' = dathash /\ UNCHANGED <<L, S, n, ka, kb, ex, lc>>
 
 (* reads at one offset through LocateData / ToShardIdAndOffset / shard file ReadAt *)
 ReadOk(off, size, err, got) == err = "" /\ SameBytes(got, DatRuns(off, size))
@@ -252,6 +255,22 @@ Rebuild(lost, err, after) ==
 Decode(size, err, hash) ==
   /\ sh # <<>>
   /\ size = n => (err = "" /\ hash = dh)
+  /\ UNCHANGED vars
+
+(* The real EcVolume is opened over the shard files with an index holding the entries
+   needles[k] = <<id, offset / 8, size>>; a needle is then located (LocateEcShardNeedle) and its
+   intervals read from the EcVolumeShards: the bytes are those of the data file at the entry's
+   offset, for the record length the locator derived (at least the entry's size). *)
+Mount(needles, err) ==
+  /\ sh # <<>> /\ err = ""
+  /\ ex' = [id \in {needles[k][1] : k \in 1..Len(needles)} |->
+              LET k == CHOOSE k \in 1..Len(needles) : needles[k][1] = id IN <<needles[k][2], needles[k][3]>>]
+  /\ UNCHANGED <<L, S, n, ka, kb, sh, dh, lc>>
+Needle(id, err, off, asize, got) ==
+  /\ ex # <<>>
+  /\ (id \in DOMAIN ex /\ 8 * ex[id][1] + ex[id][2] + 64 <= n) =>
+        /\ err = "" /\ off = 8 * ex[id][1] /\ asize >= ex[id][2]
+        /\ off + asize <= n => SameBytes(got, DatRuns(off, asize))
   /\ UNCHANGED vars
 
 (* layer-B observation, advisory (model drift, not a verdict): the data shards are laid
